@@ -672,7 +672,12 @@ func packagePrepareWalkFn(root string, ignoreRules *ignorefiles.Ruleset) filepat
 		if err != nil {
 			return fmt.Errorf("invalid .terraformignore rules: %#w", err)
 		}
-		if ignored.Excluded {
+		// A directory matched by its own name is not removed wholesale here:
+		// files below it are judged one by one (a later "!" rule may re-include
+		// them), and removing it would also leave the walk descending into a
+		// directory that no longer exists. Directories are only removed as a
+		// whole by the trailing-slash check below.
+		if ignored.Excluded && !info.IsDir() {
 			err := os.RemoveAll(absPath)
 			if err != nil {
 				return fmt.Errorf("failed to remove ignored file %s: %s", relPath, err)
@@ -692,7 +697,10 @@ func packagePrepareWalkFn(root string, ignoreRules *ignorefiles.Ruleset) filepat
 			if err != nil {
 				return fmt.Errorf("invalid .terraformignore rules: %#w", err)
 			}
-			if ignored.Excluded {
+			// Only a dominating match (a rule covering the whole subtree with
+			// no negation after it) allows dropping the directory in one go;
+			// otherwise its contents are visited and judged individually.
+			if ignored.Excluded && ignored.Dominating {
 				err := os.RemoveAll(absPath)
 				if err != nil {
 					return fmt.Errorf("failed to remove ignored file %s: %s", relPath, err)
